@@ -519,6 +519,7 @@ def setup():
     env = dict(ENV)
     env["RUSTUP_TOOLCHAIN"] = "nightly"
     env["RUSTFLAGS"] = "--cfg weechess_verif -Awarnings"
+    vdriver.ensure_fresh(os.path.join(TARGET, "selftest"))
     rc, out = _run(["cargo", "test", "--lib", "--target-dir", os.path.join(TARGET, "selftest"), "geo::selftest"],
                    cwd=os.path.join(ROOT, "harness", "core"), env=env, timeout=1800)
     ok = rc == 0 and "1 passed" in out
